@@ -444,6 +444,36 @@ pub mod verif_driver {
         buf
     }
 
+    /// Tenant index mapping as main() drives it at start-up: load_or_create(path, enabled
+    /// tenants) followed by ensure_tenant for every enabled tenant. Returns the mapping after
+    /// each start in `starts` (each start = the list of tenant ids of the enabled API keys; a
+    /// tenant with two keys appears twice), or an error string.
+    pub fn tenant_map_history(dir: &std::path::Path, starts: &[Vec<String>]) -> Result<Vec<std::collections::BTreeMap<String, u32>>, String> {
+        let path = dir.join("tenants.json");
+        let mut out = Vec::new();
+        for keys in starts {
+            let tenants: Vec<TenantInfo> = keys
+                .iter()
+                .map(|t| {
+                    serde_json::from_value(serde_json::json!({"tenant_id": t, "tenant_name": t, "max_qps": 10, "max_vectors": 10, "enabled": true}))
+                        .map_err(|e| format!("tenant info: {e}"))
+                })
+                .collect::<Result<_, _>>()?;
+            let mapper = TenantIdMapper::load_or_create(path.clone(), &tenants).map_err(|e| format!("{e:#}"))?;
+            let mut m = std::collections::BTreeMap::new();
+            for t in &tenants {
+                let idx = mapper.ensure_tenant(&t.tenant_id).map_err(|e| format!("{e:#}"))?;
+                m.insert(t.tenant_id.clone(), idx);
+            }
+            // everything the mapper knows
+            for (k, v) in mapper.map.read().iter() {
+                m.insert(k.clone(), *v);
+            }
+            out.push(m);
+        }
+        Ok(out)
+    }
+
     pub fn state_size() -> usize {
         std::mem::size_of::<ServerState>()
     }
